@@ -84,6 +84,8 @@ pub fn build_case<'src, I: HInput<'src>, E: HErr<'src, I>>(case: &Case) -> BP<'s
     let fl = case.id.rsplit_once("~s").and_then(|(_, n)| n.parse::<u8>().ok()).unwrap_or(0);
     crate::build::SEQ_FL.with(|f| f.set(fl));
     crate::build::CLONE_FL.with(|f| f.set(case.id.contains("~c")));
+    let kfl = case.id.rsplit_once("~k").and_then(|(_, n)| n.parse::<u8>().ok()).unwrap_or(0);
+    crate::build::COLL_FL.with(|f| f.set(kfl));
     if case.id.starts_with('R') && case.defs.len() == 1 {
         // a single definition built with `recursive(|p| ..)` instead of declare/define
         let def = case.defs[0].clone();
